@@ -15,6 +15,15 @@ LEVEL = 'exploration'
 VAL, EXC, CANCEL, NEXT = range(4)
 KNAMES = ['value', 'exception', 'cancelled', 'future-of-next-level']
 PERMS3 = [(0, 1, 2), (0, 2, 1), (1, 0, 2), (1, 2, 0), (2, 0, 1), (2, 1, 0)]
+PERMS4 = [p for p in __import__('itertools').permutations(range(4))]
+
+
+def levels(depth, k0, k1, k2, k3, order):
+    """(n, kinds, completion order) for depth <= 4 (depth 4 only in the thorough tier: 24 orders)"""
+    n = pick(depth, 4) + 1
+    kinds = [pick(k, 4) for k in (k0, k1, k2, k3)[:n]]
+    perm = PERMS4[pick(order, 24)] if n == 4 else PERMS3[pick(order, 6)]
+    return n, kinds, perm
 
 
 class Boom(Exception):
@@ -55,16 +64,15 @@ def check_outcome(got, want, what, **facts):
 
 
 # ------------------------------------------------------------------------------------------------
-def unwrap(depth: int, k0: int, k1: int, k2: int, order: int, v: int):
+def unwrap(depth: int, k0: int, k1: int, k2: int, k3: int, order: int, v: int):
     """unwrap_kiwi_future over kiwipy futures resolving to futures, every completion order"""
-    n = pick(depth, 3) + 1
-    kinds = [pick(k0, 4), pick(k1, 4), pick(k2, 4)][:n]
+    n, kinds, perm0 = levels(depth, k0, k1, k2, k3, order)
     assume(kinds[n - 1] != NEXT)
     for i in range(n - 1):
         assume(kinds[i] == NEXT or i >= innermost(kinds))  # levels behind the final one never exist
     n = innermost(kinds) + 1
     kinds = kinds[:n]
-    perm = [p for p in PERMS3[pick(order, 6)] if p < n]
+    perm = [p for p in perm0 if p < n]
     futs = [kiwipy.Future() for _ in range(n)]
     u = futures.unwrap_kiwi_future(futs[0])
     exc = Boom('x')
@@ -85,19 +93,20 @@ def unwrap(depth: int, k0: int, k1: int, k2: int, order: int, v: int):
     NOTES.nontrivial = True
     if n == 3:
         NOTES.witness('depth3')
+    if n == 4:
+        NOTES.witness('depth4')
     if kinds[-1] == CANCEL and n > 1:
         NOTES.witness('inner_cancel')
     NOTES.info = facts
 
 
-def mirror(depth: int, k0: int, k1: int, k2: int, order: int, v: int):
+def mirror(depth: int, k0: int, k1: int, k2: int, k3: int, order: int, v: int):
     """plum_to_kiwi_future (+ unwrap_kiwi_future on top): loop futures resolving to loop futures"""
-    n = pick(depth, 3) + 1
-    kinds = [pick(k0, 4), pick(k1, 4), pick(k2, 4)][:n]
+    n, kinds, perm0 = levels(depth, k0, k1, k2, k3, order)
     assume(kinds[n - 1] != NEXT)
     n = innermost(kinds) + 1
     kinds = kinds[:n]
-    perm = [p for p in PERMS3[pick(order, 6)] if p < n]
+    perm = [p for p in perm0 if p < n]
     loop = fresh_loop()
     futs = [loop.create_future() for _ in range(n)]
     k = communications.plum_to_kiwi_future(futs[0])
@@ -211,9 +220,10 @@ def rpc(depth: int, k0: int, k1: int, k2: int, raises: bool, v: int):
 RUN_OK, RUN_RAISE, CANCEL_OP = range(3)
 
 
-def action(o0: int, o1: int, o2: int, v: int):
+def action(nops: int, o0: int, o1: int, o2: int, o3: int, v: int):
     """CancellableAction: at most one call, outcome through itself, refuses to run twice / after cancellation"""
-    ops = [pick(o0, 3), pick(o1, 3), pick(o2, 3)]
+    ops = [pick(o, 3) for o in (o0, o1, o2, o3)[:pick(nops, 5)]]
+    assume(len(ops) >= 3)
     fresh_loop()
     calls = [0]
     exc = Boom('a')
@@ -269,23 +279,30 @@ HARNESSES = {'unwrap': unwrap, 'mirror': mirror, 'task': task, 'rpc': rpc, 'acti
 def shards(tier):
     out = []
     b = 300 if tier == 'quick' else 1200
-    for d in range(3):
-        out.append(dict(name=f'unwrap/depth={d + 1}', harness='unwrap', fixed=dict(depth=d), budget_s=b))
-        out.append(dict(name=f'mirror/depth={d + 1}', harness='mirror', fixed=dict(depth=d), budget_s=b))
-        out.append(dict(name=f'rpc/layers={d}', harness='rpc', fixed=dict(depth=d), budget_s=b))
+    deep = tier != 'quick'
+    for d in range(4 if deep else 3):
+        if d < 3:
+            out.append(dict(name=f'unwrap/depth={d + 1}', harness='unwrap', fixed=dict(depth=d), budget_s=b))
+            out.append(dict(name=f'mirror/depth={d + 1}', harness='mirror', fixed=dict(depth=d), budget_s=b))
+            out.append(dict(name=f'rpc/layers={d}', harness='rpc', fixed=dict(depth=d), budget_s=b))
+        else:   # depth 4: 24 completion orders, split by the outermost level's outcome kind
+            for k0 in range(4):
+                out.append(dict(name=f'unwrap/depth=4/k0={k0}', harness='unwrap', fixed=dict(depth=d, k0=k0), budget_s=b))
+                out.append(dict(name=f'mirror/depth=4/k0={k0}', harness='mirror', fixed=dict(depth=d, k0=k0), budget_s=b))
     out.append(dict(name='task', harness='task', fixed={}, budget_s=b))
     for o0 in range(3):
-        out.append(dict(name=f'action/o0={o0}', harness='action', fixed=dict(o0=o0), budget_s=b))
+        out.append(dict(name=f'action/o0={o0}', harness='action', fixed=dict(o0=o0, nops=4 if deep else 3), budget_s=b))
     return out
 
 
-BOUNDS = {t: dict(nesting='futures resolving to futures up to depth 3', outcomes='value (symbolic int) / exception / cancellation at every level',
+BOUNDS = {t: dict(nesting='futures resolving to futures up to depth %d' % (3 if t == 'quick' else 4), outcomes='value (symbolic int) / exception / cancellation at every level',
                   order='every completion order of the levels (all permutations)', adapters=['unwrap_kiwi_future', 'plum_to_kiwi_future', 'their composition', 'create_task (0-2 await points)', 'Process._schedule_rpc (0-2 future layers, raising callback)'],
-                  cancellable_action='all sequences of length 3 over {run(ok), run(raising), cancel}') for t in ('quick', 'thorough')}
-OUTSIDE = ['real threads (kiwipy futures are completed from the same thread)', 'depth > 3', 'cancellation of the adapter future by its consumer']
+                  cancellable_action='all sequences of length %d over {run(ok), run(raising), cancel}' % (3 if t == 'quick' else 4)) for t in ('quick', 'thorough')}
+OUTSIDE = ['real threads (kiwipy futures are completed from the same thread)', 'depth > 3 (quick) / > 4 (thorough)', 'cancellation of the adapter future by its consumer']
 RULE = 'paths over (depth, outcome per level, completion order, value); non-trivial when the adapter future was checked against the innermost outcome'
 SOLVER_ROLE = 'selector role for kinds/order (exhaustive), data role for the delivered value'
 EXPLANATION = 'faithfulness of the future adapters and the run-once contract of CancellableAction'
 ASSUMPTIONS = ['asyncio.run_coroutine_threadsafe on the StepLoop stub schedules through call_soon_threadsafe == call_soon (single thread)']
-REQUIRED_WITNESSES = ['depth3', 'inner_cancel', 'nested_loop_futures', 'create_task', 'rpc_nested', 'run_after_cancel', 'run_twice']
-LEVEL_TEXT = 'bounded exhaustive symbolic exploration of nesting depth x outcome per level x completion order for each adapter, and of all operation sequences of length 3 on a CancellableAction'
+_W = ['depth3', 'inner_cancel', 'nested_loop_futures', 'create_task', 'rpc_nested', 'run_after_cancel', 'run_twice']
+REQUIRED_WITNESSES = {'quick': _W, 'thorough': _W + ['depth4']}
+LEVEL_TEXT = 'bounded exhaustive symbolic exploration of nesting depth (<= 3 quick, <= 4 thorough) x outcome per level x completion order for each adapter, and of all operation sequences of length 3 (4 thorough) on a CancellableAction'
